@@ -174,10 +174,94 @@ def run(ctx):
             vh.close()
         except Exception:
             pass
+    protocol_edges(ctx)
+    many_files(ctx)
     metadata_and_scan_isolation(ctx)
     dev_build_pass(ctx, docs, quick)
     if not quick:
         sanitizer_pass(ctx, docs)
+
+
+def protocol_edges(ctx):
+    """legal-but-unusual and malformed notification / request sequences; after each one a hover must still be answered"""
+    from ..lsp import path_to_uri
+    root = ctx.scratch("proto")
+    good = "import pytest\n\n@pytest.fixture\ndef loc(good_fixture):\n    return 1\n\ndef test_p(loc, good_fixture):\n    x = good_fixture\n"
+    write_tree(root, {"conftest.py": hostile.GOOD_CONFTEST, "pkg/test_p.py": good, "pkg/test_never_opened.py": good})
+    f = os.path.join(root, "pkg", "test_p.py")
+    g = os.path.join(root, "pkg", "test_never_opened.py")
+    ghost = os.path.join(root, "pkg", "test_does_not_exist.py")
+    uri = path_to_uri(f)
+    srv = LSP(srv_bin(), root, locklog=os.path.join(ctx.scratch_root, "lock_srv.log"))
+    steps = [
+        ("didChange_empty_contentChanges", lambda: srv.notify("textDocument/didChange", {"textDocument": {"uri": uri, "version": 2}, "contentChanges": []})),
+        ("didChange_two_entries", lambda: srv.notify("textDocument/didChange", {"textDocument": {"uri": uri, "version": 3},
+                                                                               "contentChanges": [{"text": "x = 1\n"}, {"text": good}]})),
+        ("didChange_never_opened", lambda: srv.notify("textDocument/didChange", {"textDocument": {"uri": path_to_uri(g), "version": 7}, "contentChanges": [{"text": good}]})),
+        ("didChange_missing_file", lambda: srv.notify("textDocument/didChange", {"textDocument": {"uri": path_to_uri(ghost), "version": 1}, "contentChanges": [{"text": good}]})),
+        ("didClose_never_opened", lambda: srv.notify("textDocument/didClose", {"textDocument": {"uri": path_to_uri(ghost)}})),
+        ("didOpen_twice", lambda: (srv.did_open(f, good), srv.did_open(f, good))),
+        ("didClose_twice", lambda: (srv.did_close(f), srv.did_close(f), srv.did_open(f, good))),
+        ("didSave", lambda: srv.notify("textDocument/didSave", {"textDocument": {"uri": uri}})),
+        ("didChange_incremental_shape", lambda: srv.notify("textDocument/didChange", {"textDocument": {"uri": uri, "version": 9}, "contentChanges": [
+            {"range": {"start": {"line": 0, "character": 0}, "end": {"line": 0, "character": 6}}, "text": "import"}]})),
+        ("restore", lambda: srv.did_change(f, good)),
+        ("untitled_uri", lambda: srv.notify("textDocument/didOpen", {"textDocument": {"uri": "untitled:Untitled-1", "languageId": "python", "version": 1, "text": good}})),
+        ("untitled_requests", lambda: [srv.request(m, {"textDocument": {"uri": "untitled:Untitled-1"}, "position": {"line": 3, "character": 9}}, timeout=30)
+                                        for m in ("textDocument/hover", "textDocument/definition", "textDocument/completion", "textDocument/references")]),
+        ("odd_uris", lambda: [srv.request("textDocument/hover", {"textDocument": {"uri": u_}, "position": {"line": 0, "character": 0}}, timeout=30)
+                               for u_ in ("", "file://", "file:///", "http://example.com/x.py", uri + "%20", uri.replace("test_p", "test%5Fp"), "file:///" + "a" * 5000 + ".py")]),
+        ("unknown_request", lambda: srv.request("textDocument/doesNotExist", {"x": 1}, timeout=30)),
+        ("cancel_unknown", lambda: srv.notify("$/cancelRequest", {"id": 999999})),
+        ("unknown_notification", lambda: srv.notify("custom/notification", {"a": [1, 2, 3]})),
+        ("watched_files", lambda: srv.notify("workspace/didChangeWatchedFiles", {"changes": [{"uri": uri, "type": 2}, {"uri": path_to_uri(ghost), "type": 3}]})),
+        ("configuration", lambda: srv.notify("workspace/didChangeConfiguration", {"settings": {"pytest": None}})),
+        ("huge_symbol_query", lambda: srv.workspace_symbol("f" * 100000)),
+        ("execute_command", lambda: srv.request("workspace/executeCommand", {"command": "nope", "arguments": [None]}, timeout=30)),
+    ]
+    n = 0
+    try:
+        srv.initialize()
+        srv.did_open(f, good)
+        for name, act in steps:
+            act()
+            r = srv.hover(f, 6, 12, timeout=40)
+            n += 1
+            ctx.judged()
+            if not r["answered"]:
+                ctx.violation({"kind": "server-stops-answering-after-message", "message": name},
+                              {"stderr": srv.stderr_text()[-1200:]})
+                break
+            ctx.nontrivial(("protocol_edge", name))
+    finally:
+        ctx.count("protocol_edge_steps", n)
+        check_server_end(ctx, srv, "protocol_edges")
+        shutil.rmtree(root, ignore_errors=True)
+
+
+def many_files(ctx):
+    """more analysed files than the text cache holds (the eviction path) in one library process, then queries"""
+    vh = VH(vh_bin(), locklog=os.path.join(ctx.scratch_root, "lock_vh_many.log"))
+    try:
+        db = vh.new_db()
+        cmds = [{"op": "analyze", "db": db, "path": f"/vf_c11/many/test_m{i}.py", "text": "import pytest\n\n@pytest.fixture\ndef fx_%d():\n    return 1\n\ndef test_m(fx_%d):\n    pass\n" % (i, i)}
+                for i in range(2200)]
+        try:
+            r = vh.call(op="batch", cmds=cmds, timeout=180)
+            a = vh.call(op="available", db=db, path="/vf_c11/many/test_m5.py", timeout=60)
+            ctx.judged(2201)
+            if any("panic" in x for x in r["results"]) or "panic" in a:
+                ctx.violation({"kind": "panic-with-many-files"}, {"first": [x for x in r["results"] if "panic" in x][:1]})
+        except TimeoutError as e:
+            ctx.violation({"kind": "library-operation-did-not-return", "workload": "2200 analysed files"}, {"err": str(e), "stderr": vh.stderr_text()[-800:]})
+        except VHDied as e:
+            ctx.violation({"kind": "library-process-died", "workload": "2200 analysed files", "status": e.returncode}, {"stderr": e.stderr[-1200:]})
+        ctx.nontrivial(("many_files",))
+    finally:
+        try:
+            vh.close()
+        except Exception:
+            pass
 
 
 def metadata_and_scan_isolation(ctx):
